@@ -1,0 +1,42 @@
+//go:build verif
+
+package headers
+
+import (
+	"context"
+
+	"github.com/pkg/errors"
+)
+
+// CleanWithDepth is Clean with a caller chosen prune depth. It is only built with the "verif" tag
+// and is used by external verification harnesses so pruning is reachable with short chains.
+func (repo *Repository) CleanWithDepth(ctx context.Context, depth int) error {
+	repo.Lock()
+	defer repo.Unlock()
+
+	if err := repo.consolidate(ctx); err != nil {
+		return errors.Wrap(err, "consolidate")
+	}
+
+	if err := repo.saveMainBranch(ctx); err != nil {
+		return errors.Wrap(err, "save main branches")
+	}
+
+	if err := repo.prune(ctx, depth); err != nil {
+		return errors.Wrap(err, "prune")
+	}
+
+	if err := saveInvalidHashes(ctx, repo.store, repo.invalidHashes); err != nil {
+		return errors.Wrap(err, "invalid hashes")
+	}
+
+	return nil
+}
+
+// LoadWithDepth is Load with a caller chosen prune depth.
+func (repo *Repository) LoadWithDepth(ctx context.Context, depth int) error {
+	repo.Lock()
+	defer repo.Unlock()
+
+	return repo.load(ctx, depth)
+}
